@@ -667,6 +667,10 @@ def r30(ctx):
 
 
 def run(ctx):
+    import rules.C04 as _c04d
+    ctx.borrow(_c04d.r16, {'C04.R16': 'C20.R31'}, 'processing terminates within bounded work: the drain of the request queue on signal loss must end')
+    import rules.C08 as _c08a
+    ctx.borrow(_c08a.r9, {'C08.R9': 'C20.R32'}, 'the loader deletes a definition that add() rejects: a rejected message that was already entered into an index is a dangling pointer')
     r30(ctx)
     import rules.common as _cms
     ctx.rule('C20.R28', 'a failure reported as -1 stays negative: in the sources of this property the result of a POSIX call that reports errors as -1 (read, write, recv, send, poll, open, socket, ioctl, ...) is not converted to an unsigned type where it is stored or tested (equality with the requested length excepted) - held in a size_t a failed read counts as SIZE_MAX received bytes, the buffered length runs past the 32 byte receive buffer and the decoder reads far beyond it', minimum=30)
